@@ -163,6 +163,8 @@ def _attribute_check(pid, program, chk):
     bad, n = _unresolved_self_reads(program, funcs, stored)
     chk.count(n)
     chk.facts["O0.2 self-attribute reads resolved in the anchor files"] = n
+    if not bad:
+        chk.ok("O0.2", "<anchor files>", "%d reads of self.<attr> all name something the class hierarchy defines or assigns" % n)
     for fi, x in bad:
         chk.bad("O0.2", fi.qual, "self.%s is read here, but no class in the hierarchy of %s defines or assigns it (AttributeError at run time): the code this property rests on cannot run" % (x.attr, fi.cls.qual.split(":")[-1]), node=x, stmt="unresolved self.%s" % x.attr)
 
@@ -251,6 +253,8 @@ def _shared_state_check(pid, program, chk):
         for a, node, fn in _shared_mutable_sites(cls.node):
             chk.bad("O0.3", cls.qual + "." + fn, "%s mutates self.%s, a mutable object created once in the body of class %s and never re-bound in its constructor: all instances share (and extend) that one object" % (fn, a, cls.qual.split(":")[-1]), node=node, stmt="shared-mutable %s" % a)
     chk.count(n)
+    if not any(ob.rule == "O0.3" for ob in chk.obs):
+        chk.ok("O0.3", "<anchor files>", "%d classes: no mutable object of a class body is mutated through self without being re-bound per instance" % n)
     chk.facts["O0.3 classes of the anchor files examined for shared mutable class state"] = n
 
 
@@ -327,6 +331,8 @@ def run_property(pid, tier, seed, repo, replay=None):
         _shared_state_check(pid, program, chk)
         # O0.1 (every property): a function the rules interpreted reads a local that no earlier statement on that
         # path has bound -- the anchored code raises UnboundLocalError / NameError instead of doing what the property says
+        if not interp.UNBOUND_READS:
+            chk.ok("O0.1", "<anchor files>", "%s functions interpreted (calls in try bodies may raise what the handlers catch): no read of a name that no earlier statement on the path has bound" % chk.facts.get("O0.1 functions of the anchor files interpreted for unbound reads", "?"))
         for (qual, name), line in sorted(interp.UNBOUND_READS.items()):
             fi = program.functions.get(qual)
             chk.bad(
